@@ -35,7 +35,7 @@ _FOREIGN = sorted(set(n for sp in refspec.METHODS.values()
 
 
 def shards(tier, seed):
-    per = 40 if tier == 'quick' else 1500
+    per = 40 if tier == 'quick' else 3000
     groups = common.split(common.ALL_INDEXES + [-1], 8)
     return common.with_configs(
         [{'name': 'g%d' % i, 'indexes': g, 'per': per}
